@@ -58,6 +58,9 @@ STATION_POOL = ["st-q", "st-b", "st-z", "st-a", "st-m", "st-c"]
 # constraint names are free text: brackets, wildcards, blanks
 ODD_NAMES = ["Panel [A]", "Transformer [480V]", "feeder*", "line?", "Primary A", "[x]"]
 BIG_POOL = ["PS-%d" % i for i in (10, 9, 2, 1, 11, 3, 20, 4, 12, 5, 100, 6, 7, 8)]
+# station ids are free text too: digits only ("10" < "9" as strings), case twins, blanks, accents,
+# separators, a leading zero, one id a prefix of another
+ODD_ID_POOL = ["10", "9", "2", "A", "a", "st 1", "\u00e9-7", "x/y", "a.b", "#3", "01", "A1"]
 
 # --------------------------------------------------------------------------- build layer
 
@@ -287,6 +290,82 @@ class TraceNetwork(ChargingNetwork):
         self.pilot_trace[i] = {sid: self.evse_objs[sid].current_pilot for sid in self.station_ids}
 
 
+
+# ------------------------------------------------------------------------- a second live site
+
+_V_SWAP = {120: 240, 208: 277, 240: 120, 277: 208}
+
+
+def decoy_spec(spec):
+    """A second, unrelated site that happens to use the SAME station ids, session ids and
+    constraint names as `spec` but differs in everything else (registration order, EVSE classes,
+    voltages, phases, limits, batteries, requests, period, start, scheduler).  It is simulated in
+    the same process as the primary scenario - before it, or from inside one of the primary
+    scheduler's calls, the way a look-ahead scheduler runs a what-if simulation - and shares no
+    object with it, so nothing the primary simulation does or records may depend on it."""
+    stations = []
+    for k, s in enumerate(reversed(spec["stations"])):
+        v = _V_SWAP.get(int(s["voltage"]), 230)
+        ph = {30: -90, -90: 150, 150: 30}.get(int(s["phase"]), 30)
+        if s["kind"] == "finite":
+            stations.append({"id": s["id"], "kind": "cont", "max": 50.0, "min": 0, "voltage": v, "phase": ph})
+        elif k % 2:
+            stations.append({"id": s["id"], "kind": "finite", "rates": [0, 7, 13, 21, 40], "voltage": v, "phase": ph})
+        else:
+            stations.append({"id": s["id"], "kind": "cont", "max": 20.0, "min": 0, "voltage": v, "phase": ph})
+    cons = [{"name": c["name"], "limit": round(0.37 * min(c["limit"], 200.0) + 3, 3), "coeffs": {i: (1.0 if j % 2 else 0.5) for j, i in enumerate(sorted(c["coeffs"]))}} for c in reversed(spec["constraints"])]
+    sessions = []
+    for k, x in enumerate(spec["sessions"]):
+        batt = {"model": "ideal", "cap": 40.0, "init": 4.0, "maxp": 7.0} if k % 2 else {"model": "cont", "cap": 30.0, "init": 3.0, "maxp": 9.0, "tsoc": 0.6, "noise": 0}
+        sessions.append({"id": x["id"], "station": x["station"], "arrival": x["arrival"], "departure": x["departure"], "energy": 7.7, "est_departure": None, "battery": batt})
+    primary = spec["scheduler"]
+    if primary["kind"] in ("greedy", "rr"):
+        # the same algorithm class with other options
+        sch = {"kind": primary["kind"], "sort": "lcfs" if primary.get("sort") != "lcfs" else "edf", "uninterrupted": not primary.get("uninterrupted"), "max_recompute": 1, "inc": 2.5 if primary.get("inc") != 2.5 else 1}
+        if not primary.get("estimator"):
+            sch["estimator"] = {"up": 1, "down": 1, "inc": 1}
+    else:
+        sch = {"kind": "uncontrolled", "max_recompute": 1}
+    return {
+        "period": 3 if spec["period"] != 3 else 4,
+        "start": "2019-07-04T12:00:00",
+        "stations": stations,
+        "constraints": cons,
+        "sessions": sessions,
+        "recomputes": [],
+        # explicit early departures make room for the next session on the station: kept
+        "early_unplugs": list(spec.get("early_unplugs", [])),
+        "event_order": [],
+        "bulk_add": True,
+        "scheduler": sch,
+        "zs": [0.0],
+        "store_history": True,
+    }
+
+
+def run_decoy(spec):
+    """Build and run the second site to completion (noise-free batteries: the generated noise
+    draws of the primary scenario are not consumed)."""
+    d = build_sim(decoy_spec(spec))
+    import contextlib
+    import io
+
+    with warnings.catch_warnings(), contextlib.redirect_stdout(io.StringIO()):
+        warnings.simplefilter("ignore")
+        d.sim.run()
+    if d.sim.iteration <= 0 or not d.sim.event_queue.empty():  # pragma: no cover
+        raise RuntimeError("decoy simulation did not run")
+    return d
+
+
+def decoy_due(sched, t):
+    dec = getattr(sched, "decoy", None)
+    if not dec or dec.get("mode") != "nested":
+        return
+    if t >= dec.get("t", 0) and not getattr(sched, "decoy_ran", False):
+        sched.decoy_ran = True
+        run_decoy(sched.decoy_parent)
+
 # ----------------------------------------------------------------------------- schedulers
 
 
@@ -337,6 +416,7 @@ class Scripted(BaseAlgorithm):
 
     def schedule(self, active_sessions):
         t = self.interface.current_time
+        decoy_due(self, t)
         if self.observer is not None:
             self.observer(self, active_sessions)
         if crash_due(self, t):
@@ -412,6 +492,7 @@ class Wrapped(BaseAlgorithm):
 
     def schedule(self, active_sessions):
         t = self.interface.current_time
+        decoy_due(self, t)
         if self.observer is not None:
             self.observer(self, active_sessions)
         if crash_due(self, t):
@@ -464,8 +545,10 @@ def make_scheduler(spec, observer=None, crash_at=None, shift=0):
         a.probe = bool(sch.get("probe"))
         a.by_calls = bool(sch.get("by_calls"))
         a.reuse_dict = bool(sch.get("reuse_dict"))
-        return a
-    return Wrapped(make_inner(sch), observer, crash_at)
+    else:
+        a = Wrapped(make_inner(sch), observer, crash_at)
+    a.decoy, a.decoy_parent = spec.get("decoy"), spec
+    return a
 
 
 class Handle:
@@ -477,6 +560,8 @@ class Handle:
 
 
 def build_sim(spec, observer=None, crash_at=None, shift=0, net_cls=ChargingNetwork, scheduler=None, station_order=None, constraint_order=None, event_order=None, signals=None):
+    if (spec.get("decoy") or {}).get("mode") == "before":
+        run_decoy(spec)
     net = build_network(spec, net_cls, station_order, constraint_order)
     evs = {s["id"]: build_ev(s, shift) for s in spec["sessions"]}
     q = build_events(spec, evs, shift, event_order)
@@ -801,6 +886,8 @@ def scenarios(
         n = draw(st.integers(8, 14))
         ids = list(draw(st.permutations(BIG_POOL)))[:n]
         max_per_station = min(max_per_station, 2)
+    elif draw(st.integers(0, 11)) == 0:
+        ids = list(draw(st.permutations(ODD_ID_POOL)))[:n]
     sched_kind = scheduler if scheduler != "any" else draw(st.sampled_from(["scripted", "scripted", "scripted", "always_max", "uncontrolled", "sorted"]))
     station_kinds = kinds
     if sched_kind == "sorted":
@@ -854,6 +941,9 @@ def scenarios(
         # that refills one mapping rewrites its own history: not combined (DESIGN.md 8.5d)
         "store_history": draw(st.booleans()) and not sch.get("reuse_dict"),
         "queue_preused": draw(st.sampled_from([None, None, None, 50])),
+        # a second site with the same ids is simulated in this process: before the scenario is
+        # built, or from inside one of its scheduler calls (what-if / look-ahead simulation)
+        "decoy": draw(st.sampled_from([None] * 8 + [{"mode": "before"}, {"mode": "nested", "t": 0}, {"mode": "nested", "t": 1}, {"mode": "nested", "t": 3}])) if extras else None,
     }
 
 
@@ -911,4 +1001,8 @@ def scenario_labels(spec):
         labels.add("queue_filled_after_the_simulator_was_built")
     if spec.get("subclassed"):
         labels.add("user_defined_event_subclasses")
+    if spec.get("decoy"):
+        labels.add("second_site_same_ids_simulated_" + ("inside_a_scheduler_call" if spec["decoy"]["mode"] == "nested" else "first"))
+    if spec["stations"][0]["id"] in ODD_ID_POOL:
+        labels.add("free_text_station_ids")
     return labels
